@@ -52,6 +52,24 @@ TRAINEES = {
     "rl_blox.algorithm.a2c.train_policy_a2c": {("policy", ())},
     "rl_blox.blox.probabilistic_ensemble.train_epoch": {("model", ())},
 }
+# positions of the trainee parameters in the signatures the table above was confirmed against
+TRAINEE_POS = {
+    "rl_blox.algorithm.a2c.train_policy_a2c": {(0, ())},
+    "rl_blox.algorithm.actor_critic.train_policy_actor_critic": {(0, ())},
+    "rl_blox.algorithm.ddpg.ddpg_update_actor": {(0, ())},
+    "rl_blox.algorithm.dqn.train_step_with_loss": {(2, ())},
+    "rl_blox.algorithm.mrq.update_critic_and_policy": {(3, ()), (0, ())},
+    "rl_blox.algorithm.ppo.update_ppo": {(0, ()), (1, ())},
+    "rl_blox.algorithm.reinforce.train_policy_reinforce": {(0, ())},
+    "rl_blox.algorithm.reinforce.train_value_function": {(0, ())},
+    "rl_blox.algorithm.sac._update_entropy_coefficient": {(5, ())},
+    "rl_blox.algorithm.sac.sac_update_actor": {(0, ())},
+    "rl_blox.algorithm.td7.td7_update_actor": {(0, ("actor",))},
+    "rl_blox.algorithm.td7.td7_update_critic": {(2, ())},
+    "rl_blox.blox.embedding.model_based_encoder.update_model_based_encoder": {(0, ())},
+    "rl_blox.blox.embedding.sale.update_sale": {(0, ())},
+    "rl_blox.blox.probabilistic_ensemble.train_epoch": {(0, ())},
+}
 GRAD_FUNCS = ("flax.nnx.value_and_grad", "flax.nnx.grad", "jax.grad", "jax.value_and_grad")
 # (train function, create-state function whose optimizer/module pairs apply)
 PAIR_SOURCES = {
@@ -292,9 +310,15 @@ def run(ck, repo: Repo, tier: str):
 
     # ---------------- R2 effect sets ---------------------------------------------------------------------------
     ck.floor("update-routines", len(TRAINEES), 15)
-    for q, want in sorted(TRAINEES.items()):
+    for q, want0 in sorted(TRAINEES.items()):
         fn = repo.func(q)
         mi = fn._module
+        # the documented trainee is a *position* of the routine's signature (frozen below); its current name is looked up, so that
+        # renaming a parameter does not change the rule
+        pp_ = positional_params(fn)
+        want = {(pp_[i], a) for i, a in TRAINEE_POS[q] if i < len(pp_)}
+        if len(want) != len(TRAINEE_POS[q]):
+            raise AnalysisError(f"{q}: signature has fewer parameters than when the trainee set was recorded (anchor vanished)")
         got = eff.summary(q)
         opts = {op for k, c, p, op in eff.sites.get(q, []) if op is not None}
         # optimizer paths reached through callees
@@ -309,8 +333,9 @@ def run(ck, repo: Repo, tier: str):
             why = f"does not write its documented trainee {sorted(_p(x) for x in missing)}"
         ck.ob("R2-effects", q, "effect-set", ok, f"writes {sorted(_p(x) for x in mods)} (optimizers {sorted(_p(x) for x in got - mods)})", why, loc(mi, fn))
     # a gradient-updating function that is not in the table
+    transparent = repo.transparent_helpers()
     for qual, fn, mi in repo.all_functions():
-        if "<locals>" in qual or qual in TRAINEES:
+        if "<locals>" in qual or qual in TRAINEES or qual in transparent:
             continue
         direct = [s for s in (eff.summary(qual) and eff.sites.get(qual, [])) if s[0] == "optimizer.update"]
         if direct:
